@@ -23,6 +23,7 @@ type PsyncRecord struct {
 	ReplyID  string
 	FullOff  int64 // offset announced by +FULLRESYNC
 	RDBLen   int
+	Refused  bool // answered with an error (source not ready); nothing was granted
 }
 
 // SourceImpl implements replImpl for a Server with s.Repl set.
@@ -31,6 +32,10 @@ type SourceImpl struct {
 	Snapshot func() []byte
 	Psyncs   []PsyncRecord
 	Acks     []int64
+	// NotReady > 0: the next NotReady PSYNC requests are answered with NotReadyText (a source that is a replica without
+	// a link to its own master, or still loading): an error, the connection stays open
+	NotReady     int
+	NotReadyText string
 	// propagation of executed writes into the stream
 	Propagate bool
 	Flavour   string // "7" (absolute-expiry rewrites) or "5" (verbatim)
@@ -238,6 +243,15 @@ func (si *SourceImpl) psync(s *Server, ss *Session, a [][]byte) resp.Value {
 		off = -1
 	}
 	rec.Offset = off
+	if si.NotReady > 0 {
+		si.NotReady--
+		rec.Refused = true
+		si.Psyncs = append(si.Psyncs, rec)
+		if w := simrt.Cur(); w != nil {
+			w.Logf("%s PSYNC %s %d -> -%s", s.Addr, rec.ReplID, off, si.NotReadyText)
+		}
+		return resp.Err(si.NotReadyText)
+	}
 	ok := true
 	if rec.ReplID != r.ID && (rec.ReplID != r.ID2 || off > r.SecondOffset) {
 		ok = false
